@@ -445,6 +445,24 @@ void bufr_copy_sect1( BufrSection1 *dest, BufrSection1 *src )
       dest->len               = src->len;
    if (src->header_len > 0)
       dest->header_len        = src->header_len;
+/*
+ * the additional octets of Section 1 belong to the length copied above
+ */
+   if (dest != src)
+      {
+      if (dest->data != NULL) free( dest->data );
+      dest->data     = NULL;
+      dest->data_len = 0;
+      if ((src->data != NULL)&&(src->data_len > 0))
+         {
+         dest->data = (unsigned char *)malloc( src->data_len * sizeof(char) );
+         if (dest->data != NULL)
+            {
+            memcpy( dest->data, src->data, src->data_len );
+            dest->data_len = src->data_len;
+            }
+         }
+      }
    }
 
 /**
